@@ -1,9 +1,89 @@
+import SwayVerif.Model.SwaySem
 import SwayVerif.Driver.Util
-/-! Driver for C01 (stub — replace `answer`; keep `run`). -/
-namespace SwayVerif.Driver.C01
-open SwayVerif.Driver
+import SwayVerif.Driver.SwayParse
+/-!
+Driver for C01. Case: `prog <sexp>` | `prog-oob <sexp>` | `e2e <name> <expected>`;
+implementation result: `<class> debug=<obs> release=<obs>` with `<obs>` = `ok:<logs>` | `revert:<code>:<logs>`
+(for `e2e`: `ret:<n>` | `retd:<hex>` | `revert:<code>`).
 
-def answer (_line : String) : String := "unimplemented agree=0 prop=0"
+`prop` = in BOTH builds the run reverted exactly when `SwaySem.run` prescribes a revert and logged exactly the
+prescribed payloads. `agree` additionally compares the revert code. For C01 the model is the prescription, so
+the two coincide up to the revert code. `unsupported`/`outOfFuel` answers of the model are skipped (`skip=1`).
+`why=dead-trap-eliminated` is printed only when the prescribed outcome is missed but each build behaves like a
+run of the semantics in which the first k (≤ 8) trapping 64/256-bit `+ - *` or `/ %` whose result is never
+observed were deleted (the real compiler deletes unused trapping instructions in both profiles).
+`why=dyn-oob-no-revert` is printed only when the model prescribes a revert for an out-of-bounds dynamic array
+index and the implementation returned normally having logged exactly one more payload.
+-/
+namespace SwayVerif.Driver.C01
+open SwayVerif.Driver SwayVerif.SwaySem SwayVerif.Driver.SwayParse
+
+/-- (prop, agree, oobNoRevert) of one observed run against the prescribed outcome -/
+def judge (m : Outcome) (o : Obs) : Bool × Bool × Bool :=
+  match m with
+  | .ok l => let p := !o.reverted && decide (o.logs = l); (p, p, false)
+  | .revert c l => let p := o.reverted && decide (o.logs = l); (p, p && decide (o.code = c), false)
+  | .oob l =>
+    let p := o.reverted && decide (o.logs = l)
+    (p, p, !o.reverted && decide (o.logs.take l.length = l) && decide (o.logs.length = l.length + 1))
+  | _ => (true, true, false)
+
+/-- Is `o` the outcome of a run in which the first `k ≤ 8` trapping-but-unused operations (`SwaySem.skippable`)
+were deleted by the compiler? (Such runs never observe the missing value: `Outcome.invalid` otherwise.) -/
+def lenientMatch (p : Prog) (o : Obs) : Bool :=
+  (List.range 8).any fun k =>
+    match runSkip p FUEL (k + 1) with
+    | .invalid | .outOfFuel | .stuck | .unsupported => false
+    | m => (judge m o).1
+
+def sizeClass (n : Nat) : String :=
+  if n = 0 then "0" else if n ≤ 2 then "1-2" else if n ≤ 8 then "3-8" else "9+"
+
+def outcomeLogs : Outcome → List Bytes
+  | .ok l | .revert _ l | .oob l => l
+  | _ => []
+
+def answerProg (kind : String) (rest : List String) (itoks : List String) : String :=
+  match parseProg rest with
+  | none => "bad-prog agree=0 prop=1 why=unparsed-program"
+  | some p =>
+    let m := run p FUEL
+    let ms := showOutcome m
+    let cls := outcomeClass m
+    match m with
+    | .outOfFuel | .unsupported => s!"{ms} agree=1 prop=1 skip=1 cls={cls}"
+    | .stuck => s!"{ms} agree=0 prop=1 skip=0 cls={cls} why=model-stuck"
+    | _ =>
+      match (kvLookup "debug" itoks).bind parseObs?, (kvLookup "release" itoks).bind parseObs? with
+      | some d, some r =>
+        let (pd, ad, wd) := judge m d
+        let (pr, ar, wr) := judge m r
+        let why := if wd || wr then " why=dyn-oob-no-revert" else
+          if pd && pr then "" else
+          if (pd || lenientMatch p d) && (pr || lenientMatch p r) then " why=dead-trap-eliminated" else
+          if !pd && !pr then " why=both-differ" else if !pd then " why=debug-differs" else " why=release-differs"
+        s!"{ms} agree={b01 (ad && ar)} prop={b01 (pd && pr)} skip=0 cls={cls} kind={kind} nlogs={sizeClass (outcomeLogs m).length}{why}"
+      | _, _ => s!"{ms} agree=0 prop=1 skip=0 cls={cls} why=impl-unparsed"
+
+/-- e2e stream: `e2e <name> <expected> ;; <class> debug=<got> release=<got>`; no model involved: the maintainer's
+expected value is the prescription. -/
+def answerE2e (exp : String) (itoks : List String) : String :=
+  match kvLookup "debug" itoks, kvLookup "release" itoks with
+  | some d, some r =>
+    let ok := d = exp && r = exp
+    s!"{exp} agree={b01 ok} prop={b01 ok} skip=0 cls=e2e kind=e2e"
+  | _, _ => s!"{exp} agree=0 prop=1 skip=0 cls=e2e why=impl-unparsed"
+
+def answer (line : String) : String :=
+  match line.splitOn " ;; " with
+  | [c, i] =>
+    let itoks := tokens i
+    match tokenize c with
+    | "prog" :: rest => answerProg "prog" rest itoks
+    | "prog-oob" :: rest => answerProg "prog-oob" rest itoks
+    | ["e2e", _, exp] => answerE2e exp itoks
+    | _ => "bad-case agree=0 prop=1 why=bad-case"
+  | _ => "bad-line agree=0 prop=1 why=bad-line"
 
 def run : IO Unit := do
   lineLoop (← IO.getStdin) (← IO.getStdout) answer
